@@ -152,8 +152,8 @@ func (p *Plug) exit(cb *CB) {
 }
 
 // IsDown reports whether no session is open or being opened/closed.
-func (p *Plug) IsDown() bool { return p.st == plDown }
-func (p *Plug) IsUp() bool   { return p.st == plUp || p.st == plInH }
+func (p *Plug) IsDown() bool   { return p.st == plDown }
+func (p *Plug) IsUp() bool     { return p.st == plUp || p.st == plInH }
 func (p *Plug) StName() string { return plNames[p.st] }
 
 // MarkStopped records that DeletePeer/Close has returned for this instance.
